@@ -543,6 +543,9 @@ impl Scenario for RaceScenario {
         ctl.env().advance_wall_secs(self.p.grace_s as i64);
         ctl.env().advance_mono_secs(self.p.grace_s as i64);
         armed.store(true, Ordering::SeqCst);
+        // the pause points around the query's table registration are scheduling points as well: they lie between
+        // the pin and the first read of chunk data, i.e. the query can be parked there while it holds its pins
+        ctl.set_hook_filter(|l| l.starts_with("query:"));
         ctl.spawn("G", "G", async move {
             let _ = compactor.run_compaction_cycle().await;
         });
